@@ -1,4 +1,5 @@
 import ErrModel.Sem
+import ErrModel.Basic.Redact
 /-
   Per-layer safe details (`errbase.GetSafeDetails`, the `SafeDetails()` methods).
   The redacted verbose rendering embedded in a barrier's details is supplied by
@@ -27,9 +28,20 @@ def fillDetails (mark : TMark) (sd : List Str) (acc : List Str) : List Str :=
   if sd = [] then acc
   else acc ++ [lit "details for " ++ mark.fam ++ lit "::" ++ mark.ext ++ lit ":"] ++ sd.map (fun s => lit "  " ++ s)
 
+/-- one context tag as `redactableTagsIterate` builds it:
+    `redact.Sprintf("%s%s%v", Safe(k), eq, v)`; kind 0 = unsafe value, 1 = Safe value, 2 = nil -/
+def tagRStr (kv : Str × Str) (kind : Nat) : RStr :=
+  if kind = 2 then assemble [.lit kv.1]
+  else if kind = 1 then assemble [.lit kv.1, .lit (if kv.1.length > 1 then b!"=" else []), .lit kv.2]
+  else assemble [.lit kv.1, .lit (if kv.1.length > 1 then b!"=" else []), .arg kv.2]
+
 /-- `redactTags`. -/
-def redactTag (kv : Str × Str) : Str :=
-  redactStrip (kv.1 ++ (if kv.1.length > 1 then lit "=" else []) ++ encloseUnsafe kv.2)
+def redactTags : List (Str × Str) → List Nat → List Str
+  | [], _ => []
+  | kv :: r, ks => redactStrip (tagRStr kv (ks.headD 0)) :: redactTags r ks.tail
+
+theorem redactTags_eq_nil (t : List (Str × Str)) (k : List Nat) : redactTags t k = [] ↔ t = [] := by
+  cases t <;> simp [redactTags]
 
 section
 variable (P : Proc) (vf : Err → Str)
@@ -57,7 +69,7 @@ def layerDetails : Err → List Str
     | .withIssueLink url det => [url, det]
     | .withTelemetry keys => keys
     | .withDomain d => [d]
-    | .withContext tags red => match red with | some r => r | none => tags.map redactTag
+    | .withContext tags kinds red => match red with | some r => r | none => redactTags tags kinds
     | .withSafeDetails l => l
     | .pkgWithStack st => [printStack st]
     | .opaqueWrapper _ d _ _ => d.rep
